@@ -173,7 +173,9 @@ class ByteFlag(Signature):
     def parse(self, packet):
         super(ByteFlag, self).parse(packet)
         for i in range(0, self.header.length - 1):
-            self.flags = packet[:1]
+            # the flags this class knows are bits of the first octet; the same bit values in later octets mean something else
+            if i == 0:
+                self.flags = packet[:1]
             del packet[:1]
 
 
